@@ -182,6 +182,11 @@ def run(repo, chk):
     cg = [c for c in ast.walk(main) if isinstance(c, ast.Call) and src(c.func) == 'CodeGen']
     chk.expect(len(cg) == 1 and src(cg[0].args[-1]) == 'args.unchecked', 'C15.U3', 'main::CodeGen(..., args.unchecked)',
                'the command-line flag must reach CodeGen.unchecked unchanged', 'hidc/__main__.py')
+    # ... and it is used for nothing else by the command-line front end (what is written to the file does not depend on it)
+    uses = [n for fn_ in repo.functions('hidc/__main__.py').values() for n in ast.walk(fn_)
+            if isinstance(n, ast.Attribute) and n.attr == 'unchecked' and isinstance(n.ctx, ast.Load)]
+    chk.expect(len(uses) == 1, 'C15.U3', 'main::uses of the flag', f'{len(uses)} reads of the option in hidc/__main__.py: it may only be '
+               'handed to CodeGen', 'hidc/__main__.py')
     chk.not_decided = ['faulting runs (excluded by the property)', 'the VM semantics behind lemma L2']
 
 
